@@ -28,11 +28,8 @@ func (TrueSet) IsTrue() bool {
 }
 
 func (t TrueSet) Less(v Value) bool {
-	switch v.(type) {
-	case TrueSet, Number, Tuple, EmptySet:
-		return false
-	}
-	return true
+	// Order by kind, like every other value (see EmptySet.Less).
+	return t.Kind() < v.Kind()
 }
 
 func (t TrueSet) Negate() Value {
